@@ -89,3 +89,41 @@ impl<'a> VmCore<'a> {
 
 /// result type of enter_safepoint_once (only its identity matters here)
 pub type SteelVal = u8;
+
+// ---- watchdog side (interrupt.rs): the thread handle and the channel are ghost counters
+#[derive(Default)]
+pub struct GhostThread {
+    pub unparks: Cell<u32>,
+}
+impl GhostThread {
+    pub fn unpark(&self) {
+        self.unparks.set(self.unparks.get() + 1)
+    }
+}
+#[derive(Default)]
+pub struct GhostJoinHandle {
+    pub t: GhostThread,
+}
+impl GhostJoinHandle {
+    pub fn thread(&self) -> &GhostThread {
+        &self.t
+    }
+}
+#[derive(Default)]
+pub struct GhostSender {
+    pub sent: Cell<u32>,
+    /// controller state observed when the "run is over" message was sent
+    pub paused_when_sent: Cell<bool>,
+}
+impl GhostSender {
+    pub fn send(&self, _m: ()) -> core::result::Result<(), ()> {
+        self.sent.set(self.sent.get() + 1);
+        Ok(())
+    }
+}
+pub struct InterruptHandler {
+    pub controller: crate::x_vm::ThreadStateController,
+    pub running: Arc<AtomicBool>,
+    pub handle: GhostJoinHandle,
+    pub done: GhostSender,
+}
